@@ -758,6 +758,19 @@ func (w *srvWorld) checkC09(final bool) {
 			pay := ""
 			for _, rep := range replies {
 				if rep.Seq <= a.Return && (strings.Contains(a.Result, `"`+rep.Payload+`"`) || a.Result == "E:"+rep.Payload) {
+					// a reply that had arrived, and been dealt with (a quiescent point
+					// followed), before this Callback was even invoked was unsolicited:
+					// it is discarded and completes nothing
+					early := false
+					for _, q := range w.qpoints {
+						if rep.Arrive >= 0 && rep.Arrive < q && q <= a.Invoke {
+							early = true
+						}
+					}
+					if early {
+						r.Fail("callback-foreign-reply", "Callback %s (id %s, invoked #%d) returned %s, a reply that had arrived at #%d - before the callback existed; an unsolicited reply is discarded and completes nothing", a.Tag, id, a.Invoke, a.Result, rep.Arrive)
+						return
+					}
 					pay = rep.Payload
 					if rep.IsErr && rep.Code != 0 && (a.ErrCode != rep.Code || compactJSON(a.ErrData) != fmt.Sprintf(`{"d":%q}`, rep.Payload)) {
 						r.Fail("callback-foreign-reply", "Callback %s: the client answered with error code %d and data {\"d\":%q}; Callback returned code %d data %s (client failures must arrive as the *Error the client sent)", a.Tag, rep.Code, rep.Payload, a.ErrCode, a.ErrData)
